@@ -139,3 +139,11 @@ contract(F, "DefaultQueue._populate_staging", props=["C16"], aliases=AL,
                 1: dict(invariant=["wf(self)", "len(self.staging) > 0 or len(self.working) == 0"], modifies=_NEXT_MODS)},
          modifies=_NEXT_MODS,
          notes="returns only with a non-empty staging area; exhaustion is signalled by StopIteration (termination not proved)")
+contract(F, "DefaultQueue.do_level", props=["C16"], aliases=AL,
+         params={"self": Q}, returns=Seq(WorkPacket),
+         yields=["not (it.label in self.ignore)"],
+         may_raise=["NoMoreClassesToExpandError"],
+         loops={0: dict(invariant=["wf(self)"], modifies=_NEXT_MODS)},
+         modifies=_NEXT_MODS,
+         notes="hands out only packets of labels that are not ignored at that moment; a level that cannot start is an error, "
+               "never a silent empty iteration")
